@@ -112,6 +112,10 @@ def search_cases(rng, tier):
 # --- python mirror of Spec.C15.judge -----------------------------------------------------------
 
 def _judge(case, out):
+    if out.startswith("HANG-skipped"):
+        return "ok skipped"
+    if out.startswith("HANG"):
+        return "bad hang an Ask never returned: a logical thread blocked outside every schedule point"
     if out.startswith("CRASH") or out.startswith("panic"):
         return "bad crash " + out
     cp, op = case.split("|"), out.split("|")
@@ -175,7 +179,7 @@ def oracle(case, impl, judge):
         return None
     if impl.startswith("CRASH"):
         return "harness crashed: " + impl
-    if judge is None:
+    if judge is None or impl.startswith("HANG"):
         judge = _judge(case, impl)
     return None if judge.startswith("ok") else judge
 
@@ -193,6 +197,8 @@ def is_trivial(case, impl):
 
 
 def tag(case, impl):
+    if impl and impl.startswith("HANG"):
+        return "hang"
     progs = [p.split() for p in case.split("|")[1].split(";")]
     ncallers = sum(1 for p in progs if any(o.startswith("a") for o in p))
     t = "timeout" if impl and "timeout" in impl.split("|")[1] else "replied"
@@ -202,5 +208,9 @@ def tag(case, impl):
 def shrink(case):
     cfg, progs, sched = [x.strip() for x in case.split("|")]
     s = sched.split()
-    for i in range(len(s)):
+    # a few large cuts first, then single deletions (each candidate may cost a step timeout on a hanging implementation)
+    for cut in (len(s) // 2, len(s) // 4):
+        if cut > 0:
+            yield f"{cfg} | {progs} | " + " ".join(s[:len(s) - cut])
+    for i in range(min(len(s), 8)):
         yield f"{cfg} | {progs} | " + " ".join(s[:i] + s[i + 1:])
